@@ -286,7 +286,21 @@ violation:
   - types
 warning:
   - pattern-r
+  - data-required
+  - security-class
 validations:
+  data-required:
+    targetClass: ex.T
+    message: data required
+    propertyConstraints:
+      ex.data:
+        minCount: 1
+  security-class:
+    targetClass: ex.security
+    message: security nodes need core
+    propertyConstraints:
+      ex.core:
+        minCount: 1
   count-p:
     targetClass: ex.T
     message: at least two p
